@@ -27,190 +27,7 @@ ck.assumptions = [
     'senders of responses are members of the (fixed) configuration; responses from unknown ids are outside the property',
     'outside: snapshot install/compaction, membership change / joint consensus, leadership transfer, transport, timers',
 ]
-F = P.field
-U64 = lambda v: z3.BitVecVal(v, 64)
-
-# ---------------------------------------------------------------- environment overrides (nondeterministic stubs)
-
-
-def nd_result(c):
-    """Result<(), ChainError>: Ok(()) or Err(opaque) – caller explores both"""
-    if c.st.choose(2, 'persist ok/err') == 0:
-        return ok(UNIT, 'Result<(), ChainError>')
-    c.st.notes.append(('persist_failed', c.canon))
-    return err(Opaque('ChainError'), 'Result<(), ChainError>')
-
-
-def persist_tv(c):
-    r = nd_result(c)
-    if r.variant == 'Ok':
-        term = c.args[1]
-        vote = c.args[2]
-        c.st.notes.append(('persist_term_vote', term, vote))
-    return r
-
-
-def persist_entry(c):
-    r = nd_result(c)
-    if r.variant == 'Ok':
-        c.st.notes.append(('persist_entry', c.args[1]))
-    return r
-
-
-def fresh_bool(c):
-    return z3.Bool(c.st.fresh_name('env_bool'))
-
-
-def fresh_f32(c):
-    return Flt(z3.FP(c.st.fresh_name('env_f32'), z3.Float32()))
-
-
-def logentry_clone(c):
-    e = c.args[0].load(c.st)
-    r = Struct('LogEntry', {F('LogEntry', 'term'): e.load(F('LogEntry', 'term'), 'u64', c.st),
-                            F('LogEntry', 'index'): e.load(F('LogEntry', 'index'), 'u64', c.st)}, lazy=(e.lazy or 'entry') + "'")
-    return r
-
-
-def noop(c):
-    return UNIT
-
-
-def fast_path_result(c):
-    return Struct('FastPathResult', {}, lazy=c.st.fresh_name('fpr'))
-
-
-ex.extra_models.update({
-    'RaftNode::persist_term_and_vote': persist_tv,
-    'RaftNode::persist_log_entry': persist_entry,
-    'RaftWal::append': nd_result,
-    'RaftNode::is_peer_healthy': fresh_bool,
-    'RaftNode::geometric_vote_bias': fresh_f32,
-    '<LogEntry as Clone>::clone': logentry_clone,
-    'FastPathState::clear_leader': noop, 'FastPathValidator::reset': noop, 'FastPathState::add_embedding': noop,
-    'FastPathValidator::record_validation': noop, 'RaftStats::record_fast_path': noop,
-    'RaftStats::record_full_validation': noop, 'RaftStats::record_rejected': noop,
-    'FastPathValidator::check_fast_path': fast_path_result,
-    'FastPathState::get_embeddings': lambda c: Seq('Vec<f32>', []),
-    'SparseVector::to_dense': lambda c: Seq('f32', []),
-    '<SparseVector as Clone>::clone': lambda c: c.args[0].load(c.st),
-    'QuorumTracker::record_success': noop, 'QuorumTracker::record_failure': noop, 'QuorumTracker::mark_reachable': noop,
-    'RaftNode::stop_heartbeat_task': noop,
-    'Option::as_deref': lambda c: Enum('Option', z3.BitVec(c.st.fresh_name('asderef'), 64), {}, lazy=c.st.fresh_name('asderef')),
-})
-
-# ---------------------------------------------------------------- pre-state construction
-
-T_PERSIST = 'parking_lot::lock_api::RwLock<parking_lot::RawRwLock, raft::PersistentState>'
-T_VOLATILE = 'parking_lot::lock_api::RwLock<parking_lot::RawRwLock, raft::VolatileState>'
-T_LEADERSHIP = 'parking_lot::lock_api::RwLock<parking_lot::RawRwLock, raft::LeadershipState>'
-
-
-class Node:
-    """handles into a lazily created RaftNode, with the pre-state symbols the oracles need"""
-
-    def __init__(self, st, loglen, name='N'):
-        self.st = st
-        self.node = st.fresh('RaftNode', name)
-        st.roots['node'] = self.node
-        self.ptr = ref(self.node)
-        st.roots['nodeptr'] = self.ptr
-        P_ = self.persistent(st)
-        self.term0 = P_.load(F('PersistentState', 'current_term'), 'u64', st)
-        self.vote0 = P_.load(F('PersistentState', 'voted_for'), 'std::option::Option<std::string::String>', st)
-        self.vote0_some = self.vote0.load(('Some', 0), 'std::string::String', st)
-        self.vote0_disc = self.vote0.disc
-        ents = []
-        self.log0 = []
-        for i in range(loglen):
-            e = st.fresh('LogEntry', f'{name}.log[{i}]')
-            t = e.load(F('LogEntry', 'term'), 'u64', st)
-            e.fields[F('LogEntry', 'index')] = Int(U64(i + 1), False)
-            ents.append(e)
-            self.log0.append(t.v)
-        for a, b in zip(self.log0, self.log0[1:]):
-            st.assume(z3.ULE(a, b))
-        if self.log0:
-            st.assume(z3.ULE(self.log0[-1], self.term0.v))
-        P_.fields[F('PersistentState', 'log')] = Seq('LogEntry', ents)
-        P_.fields[F('PersistentState', 'log_base_index')] = Int(U64(0), False)
-        V = self.volatile(st)
-        self.commit0 = V.load(F('VolatileState', 'commit_index'), 'u64', st)
-        st.assume(z3.ULE(self.commit0.v, U64(loglen)))
-        L = self.leadership(st)
-        self.role0 = L.load(F('LeadershipState', 'role'), 'raft::RaftState', st)
-        self.id = self.node.load(F('RaftNode', 'node_id'), 'std::string::String', st)
-        self.loglen0 = loglen
-
-    def persistent(self, st):
-        n = st.roots['node']
-        return n.load(F('RaftNode', 'persistent'), T_PERSIST, st).fields['data'].load(0, None, st)
-
-    def volatile(self, st):
-        n = st.roots['node']
-        return n.load(F('RaftNode', 'volatile'), T_VOLATILE, st).fields['data'].load(0, None, st)
-
-    def leadership(self, st):
-        n = st.roots['node']
-        return n.load(F('RaftNode', 'leadership'), T_LEADERSHIP, st).fields['data'].load(0, None, st)
-
-    # post-state readers (st = final state of a path)
-    def term(self, st):
-        return self.persistent(st).load(F('PersistentState', 'current_term'), 'u64', st).v
-
-    def vote(self, st):
-        return self.persistent(st).load(F('PersistentState', 'voted_for'), None, st)
-
-    def log(self, st):
-        s = self.persistent(st).load(F('PersistentState', 'log'), None, st)
-        return [(e.load(F('LogEntry', 'term'), 'u64', st).v, e.load(F('LogEntry', 'index'), 'u64', st).v) for e in s.items(st)]
-
-    def commit(self, st):
-        return self.volatile(st).load(F('VolatileState', 'commit_index'), 'u64', st).v
-
-    def role(self, st):
-        r = self.leadership(st).load(F('LeadershipState', 'role'), 'raft::RaftState', st)
-        return r.disc if not isinstance(r.disc, int) else z3.BitVecVal(r.disc, 64)
-
-
-ROLE = {n: P.variant_index('RaftState', n) for n in ('Follower', 'Candidate', 'Leader')}
-
-
-def disc(e):
-    return e.disc if not isinstance(e.disc, int) else z3.BitVecVal(e.disc, 64)
-
-
-def opt_str_eq(e, s, st):
-    """Option<String> e == Some(s)"""
-    d = disc(e)
-    if isinstance(e.disc, int) and e.disc == 0:
-        return z3.BoolVal(False)
-    pv = e.load(('Some', 0), 'std::string::String', st)
-    return z3.And(d == 1, pv.id == s.id)
-
-
-def run(st, fname, args):
-    st.frames = []
-    ex.call(st, fname, args)
-    return ex.run(st)
-
-
-def response(r, variant):
-    """payload struct of Some(Message::<variant>(payload)) returned by a handler"""
-    rv = r.retval
-    if not isinstance(rv, Enum) or rv.variant != 'Some':
-        return None
-    msg = rv.fields[('Some', 0)]
-    if msg.variant != variant:
-        return None
-    return msg.fields[(variant, 0)]
-
-
-def pre_dump(m, n, st):
-    return {'term': mval(m, n.term0.v), 'voted_for': (None if mval(m, n.vote0_disc) == 0 else mval(m, n.vote0_some.id)),
-            'log_terms': [mval(m, t) for t in n.log0], 'commit_index': mval(m, n.commit0.v), 'role': mval(m, disc(n.role0)),
-            'node_id': mval(m, n.id.id)}
-
+exec(open(os.path.join(os.path.dirname(os.path.abspath(__file__)), 'raftcommon.py')).read())
 
 PART = os.environ.get('C01_PART', 'all')
 HERE = os.path.dirname(os.path.abspath(__file__))
